@@ -12,6 +12,13 @@ def strict(a, b=2, *, nid, c=None):
     return faclog.call("vfact.strict", (a, b), {"nid": nid, "c": c})
 
 
+def intonly(x=0, *, nid):
+    """Picky about the type of its argument: 1 is fine, True and 1.0 are not (they compare equal to 1)."""
+    if type(x) is not int:
+        raise TypeError("x must be an int, not %s" % type(x).__name__)
+    return faclog.call("vfact.intonly", (), {"nid": nid, "x": x})
+
+
 def boom(*args, **kwargs):
     raise ValueError("factory failed on purpose")
 
